@@ -343,6 +343,8 @@ class Trace:
             num = self.numeric_outputs(fn, vals)
             A = num[ob.lhs]
             B = num[ob.rhs] if ob.rhs is not None else None
+            if B is not None and A.shape != B.shape:
+                return {"inputs": vals, "entry": None, "observed": f"shape {A.shape}", "expected": f"shape {B.shape}", "abs_diff": None}
             worst = 0.0
             where = None
             for (i, j) in self._entries(onodes, ob):
@@ -376,6 +378,10 @@ class Trace:
                 continue
             A = num[ob.lhs]
             B = num[ob.rhs] if ob.rhs is not None else None
+            if B is not None and A.shape != B.shape:
+                failing = True
+                msgs.append(f"{ob.id}: shape {A.shape} vs {B.shape}")
+                continue
             for i in range(A.shape[0]):
                 for j in range(A.shape[1]):
                     if ob.entries is not None and (i, j) not in [tuple(e) for e in ob.entries]:
